@@ -89,9 +89,9 @@ func (r *Reach) RepoFuncs() []*ssa.Function {
 type Effect struct {
 	Fn    *ssa.Function
 	Instr ssa.Instruction
-	Field *types.Var  // for field stores
+	Field *types.Var   // for field stores
 	Owner *types.Named // struct type owning Field
-	Kind  string      // field | elem | mapupdate | global | deref
+	Kind  string       // field | elem | mapupdate | global | deref
 	Addr  ssa.Value
 	Val   ssa.Value
 }
